@@ -407,7 +407,7 @@ func replayC16(r *fw.Run, raw json.RawMessage) {
 func init() {
 	fw.Register(&fw.Engine{
 		ID: "C16", Level: "exploration", Race: true,
-		Rule: "race-detector build of the driver. Every pair (thorough: and triple) of {Shutdown, GetListener x20, RegisterInterface with a new name, RegisterInterface with a registered name, client connect + GetInfo + GetInterfaceDescription, client more-call with 3 replies, client abort mid-frame, cancel of the serving context} is started concurrently - seeded start offsets 0..2 ms - against a Listen or Bind+DoListen that is known to be serving (completed round trip) and holds one idle connection; 6 (thorough 40) repetitions per tuple and entry point. Then: connections used by one goroutine at a time (in-memory pipe, unix, TCP, real Connection, bridge) with cancelled and timed-out Read/ReadBytes/Write/Call, the caller overwriting its buffers as soon as each call has returned; handlers blocked in Call.Conn I/O while the serving context is cancelled; the concurrent-connection workload of C01 (thorough: also the real-socket epochs of C14 and the C17 matrix). Oracle: the Go race detector (GORACE halt_on_error=0, log files); a report counts if any of its stacks has a frame in github.com/varlink/go; reports are de-duplicated by the pair of first library frames. evaluations = tuples x repetitions; distinct by (tuple, entry point, offsets); evidence also counts the distinct begin/end orders observed per tuple.",
+		Rule: "race-detector build of the driver. Every pair (thorough: and triple) of {Shutdown, GetListener x20, RegisterInterface with a new name, RegisterInterface with a registered name, client connect + GetInfo + GetInterfaceDescription, client more-call with 3 replies, client abort mid-frame, cancel of the serving context} is started concurrently - seeded start offsets 0..2 ms - against a Listen or Bind+DoListen that is known to be serving (completed round trip) and holds one idle connection; 6 (thorough 40) repetitions per tuple and entry point. Then: connections used by one goroutine at a time (in-memory pipe, unix, TCP, real Connection, bridge) with cancelled and timed-out Read/ReadBytes/Write/Call, the caller overwriting its buffers as soon as each call has returned; handlers blocked in Call.Conn I/O while the serving context is cancelled; the concurrent-connection workload of C01 (thorough: also the real-socket epochs of C14 and the C17 matrix). Oracle: the Go race detector (GORACE halt_on_error=0, log files); a report counts if any of its stacks has a frame in github.com/varlink/go; reports are de-duplicated by the pair of first library frames. evaluations = tuples x repetitions; distinct by (tuple, entry point, offsets); evidence also counts the distinct begin/end orders observed per tuple. A third of the tuples serve with an (hour long) idle timeout; four triples around Shutdown + RegisterInterface + client call are part of the quick tier; an upgraded handler reads and writes its connection from two goroutines while the peer half-closes and then goes away.",
 		Assumptions: []string{"the race detector reports only races between accesses that both executed in this run", "reports without any library frame are harness-only and listed as notes"},
 		Run:         runC16, Replay: replayC16, CrashIsViolation: false, MinEvals: 20,
 		QuickTimeout: 20 * time.Minute, ThoroughTimeout: 90 * time.Minute,
